@@ -148,6 +148,8 @@ enum Case {
     Fifo(usize, usize, usize),
     Stdin(usize, usize),
     Write(usize),
+    /// read_line meeting bytes that are not valid UTF-8 (0: an invalid line in a file; 1: a multi-byte character split by an earlier read(f, 1))
+    BadLine(usize),
 }
 
 /// call sequences used on pipes (each ends with a read of everything that remains)
@@ -240,6 +242,8 @@ impl P21 {
                 }
             }
         }
+        cases.push(Case::BadLine(0));
+        cases.push(Case::BadLine(1));
         let wcases = write_cases(tier);
         for w in 0..wcases.len() {
             cases.push(Case::Write(w));
@@ -267,6 +271,7 @@ impl Property for P21 {
             Case::File(s, u) => json!({"file": {"size": SIZES[*s], "flavour": if *u { "utf-8 text" } else { "binary" }}, "search": "BFS over read call sequences of depth <= 3"}),
             Case::Fifo(s, ch, q) => json!({"fifo": {"size": SIZES[*s], "chunks": chunkings(SIZES[*s])[*ch], "calls": format!("{:?}", pipe_sequences()[*q])}}),
             Case::Stdin(ch, q) => json!({"stdin (binary)": {"size": 12289, "chunks": chunkings(12289)[*ch], "calls": format!("{:?}", pipe_sequences()[*q])}}),
+            Case::BadLine(k) => json!({"read_line on bytes that are not valid UTF-8": (["file 'ab<0xff>cd / line2 / rest': read_line, read", "file 'é / abc / rest': read(f, 1), read_line, read_line, read"][*k])}),
             Case::Write(w) => {
                 let c = &self.wcases[*w];
                 json!({"write": {"mode": c.mode, "target_exists": c.existing, "writes(size,kind)": format!("{:?}", c.writes), "ending": (["handle dropped at end", "flush(f) then handle kept alive"][c.ending as usize])}})
@@ -274,6 +279,42 @@ impl Property for P21 {
         }
     }
     fn run(&self, idx: u64) -> CaseOut {
+        if let Case::BadLine(k) = &self.cases[idx as usize] {
+            let dir = scratch_dir("c21");
+            let (content, ops): (Vec<u8>, Vec<Op>) = if *k == 0 {
+                (b"ab\xffcd\nline2\nrest".to_vec(), vec![Op::Line, Op::Read])
+            } else {
+                ("\u{e9}\nabc\nrest".as_bytes().to_vec(), vec![Op::ReadN(1), Op::Line, Op::Line, Op::Read])
+            };
+            let path = dir.join("badline.bin");
+            std::fs::write(&path, &content).unwrap();
+            let r = guarded(|| -> Result<(Vec<u8>, usize), String> {
+                let f = (builtin("open"))(vec![st(path.to_str().unwrap())])?;
+                let mut got = vec![];
+                let mut errors = 0;
+                for op in &ops {
+                    match call(&f, *op)? {
+                        Ok(b) => got.extend(b),
+                        Err(_) => errors += 1,
+                    }
+                }
+                Ok((got, errors))
+            });
+            return match r {
+                Err(m) => CaseOut::viol("panic", format!("panicked: {}", one_line(&m, 200))),
+                Ok(Err(m)) => CaseOut::viol("wrong bad-line", format!("read_line on invalid UTF-8: {}", m)),
+                Ok(Ok((got, errors))) => {
+                    if got == content {
+                        CaseOut::pass("bad-line nothing lost")
+                    } else if errors > 0 && got.len() < content.len() && content.ends_with(&got[got.len().saturating_sub(4)..]) {
+                        // defect model: the call that answered with an error object consumed its line
+                        CaseOut { class: "bad-line line lost".into(), verdict: known_or_violation("C21", "read-line-invalid-utf8", format!("the calls returned {} of {} bytes: the line that is not valid UTF-8 was consumed but returned by no call", got.len(), content.len())), states: 1, transitions: ops.len() as u64, traces: 1 }
+                    } else {
+                        CaseOut::viol("wrong bad-line", format!("the calls returned {:?}, the content is {:?}", String::from_utf8_lossy(&got), String::from_utf8_lossy(&content)))
+                    }
+                }
+            };
+        }
         let dir = scratch_dir("c21");
         let case = self.cases[idx as usize].clone();
         let r = guarded(|| -> Result<(String, u64, u64), String> {
@@ -335,6 +376,7 @@ impl Property for P21 {
                     }
                     Ok((format!("file size {}", SIZES[s]), states, transitions))
                 }
+                Case::BadLine(_) => unreachable!(),
                 Case::Fifo(s, ch, q) => {
                     let c = content(SIZES[s], true);
                     let chunks = chunkings(c.len())[ch].clone();
@@ -539,6 +581,7 @@ impl Property for P21 {
                     Case::Fifo(..) => "fifo-read",
                     Case::Stdin(..) => "stdin-read",
                     Case::Write(_) => "write",
+                    Case::BadLine(_) => "bad-line",
                 };
                 CaseOut::viol(format!("wrong {}", cls), m)
             }
